@@ -71,6 +71,23 @@ fn main() {
             debug_sql(&p);
             return;
         }
+        "DEBUGC12" => {
+            use qrlew::data_type::injection::{InjectInto, Injection};
+            use qrlew::data_type::{DataType, Variant as _};
+            let a = DataType::float_values([1e30, 2e30, 4.0]);
+            let b = DataType::integer();
+            match a.inject_into(&b) {
+                Ok(inj) => {
+                    println!("image {:?}", inj.super_image(&a).map(|t| t.to_string()));
+                    for v in [1e30, 2e30, 4.0] {
+                        println!("value({}) = {:?}", v, inj.value(&qrlew::data_type::value::Value::float(v)).map(|w| w.to_string()));
+                    }
+                }
+                Err(e) => println!("inject_into refused: {}", e),
+            }
+            println!("into_data_type {:?}", a.into_data_type(&b).map(|t| t.to_string()));
+            return;
+        }
         "DEBUGDET" => {
             debug_det(&p);
             return;
